@@ -29,6 +29,7 @@ RULE = (
     "Non-trivial = field count != 6, or a boundary/over-range numeric, or a cross-field rule decided; distinct = distinct (version, line)."
     ' Round 5: cases also run with the library logging at DEBUG, with set-up in a foreign context/thread, and with the same line spelled as MQTT topic levels + payload through a real MQTTClient on a fake broker (same reference verdict).'
     ' Round 6: the MQTT spelling uses 8 topic prefixes (incl. the README default; digits that also occur in ids); a well-formed line rejected on that path is reported.'
+    ' Round 7: format-string metacharacters among the odd spellings; id-request warm-ups enumerated.'
 )
 ASSUMPTIONS = [
     "spelling classes: canonical -?(0|[1-9][0-9]*); anything else int() parses is a grey zone (verdict not demanded)",
@@ -106,6 +107,8 @@ def strategy(tier: str):
             "ctx": st.sampled_from(("same", "same", "same", "copied", "thread")),
             "mqtt": st.sampled_from((False, False, True)),  # the same line spelled as MQTT topic levels + payload
             "mqtt_prefix": st.sampled_from(MQTT_PREFIXES),
+            "mqtt_repeat": st.booleans(),
+            "stream": st.sampled_from((False, False, True)),  # the same line as bytes on a serial/TCP stream
         }
     )
 
@@ -126,6 +129,12 @@ def enumerate_cases(tier: str):
             for head in ("0;255;3;0;9;", "12;3;1;1;47;", "7;255;0;0;17;"):
                 yield {"version": version, "line": head + inner + "\n"}
                 yield {"version": version, "line": head + inner}
+        # characters str.splitlines splits on, inside a payload, on every path a line can take (direct, byte stream, MQTT twice on one topic)
+        for inner in ("a\x0bb", "a\x0cb", "a\x1cb", "a\x1db", "a\x1eb", "a\x85b", "a\u2028b", "a\u2029b", "a\rb", "\x1c", "\x0b;x", "plain", "a;b"):
+            for head in ("0;255;3;0;9;", "12;3;1;1;47;"):
+                yield {"version": version, "line": head + inner + "\n", "stream": True}
+                yield {"version": version, "line": head + inner + "\n", "mqtt": True, "mqtt_repeat": True}
+                yield {"version": version, "line": head + inner + "\n", "mqtt": True, "mqtt_repeat": True, "mqtt_prefix": "mygateway1-out"}
     # format-string metacharacters in one field while another field is out of range / ill-formed (error messages built from the input)
     for version in ("1.4", "2.2"):
         for meta in ("{}", "{0}", "{input}", "{input.x}", "}", "{", "%s", "%(x)s", "%d", "{\"temp\":21}"):
@@ -180,7 +189,40 @@ def enumerate_cases(tier: str):
 MQTT_PREFIXES = ("gw/out", "mygateway1-out", "0", "12/5", "255/0/1", "1", "3/3/3/3/3/3", "mysensors/2")  # incl. the README default; digits that also occur in ids
 
 
-def _via_mqtt(version: str, line: str, ctx: str | None, prefix: str = "gw/out"):
+def _via_stream(version: str, line: str, ctx: str | None):
+    """The line as bytes on a serial/TCP stream (real StreamReader over an in-memory transport), then listen. None = not expressible."""
+    from vf.props import c03
+
+    body = line[:-1] if line.endswith("\n") else line
+    if "\n" in body:
+        return None
+    try:
+        raw = body.encode("utf-8") + b"\n0;255;3;0;9;after\n"
+    except UnicodeEncodeError:
+        return None
+
+    async def main():
+        transport = c03.MemoryStreamTransport(raw, 2**20)
+        gateway, _ = env.make_gateway(version, transport=transport, ctx=ctx)
+        await transport.connect()
+        agen = gateway.listen()
+        try:
+            return "ok", await agen.__anext__()
+        except Exception as err:  # noqa: BLE001
+            from aiomysensors.exceptions import AIOMySensorsError
+
+            return ("liberr" if isinstance(err, AIOMySensorsError) else "leak"), err
+        finally:
+            await agen.aclose()
+            try:
+                await transport.disconnect()
+            except BaseException:  # noqa: BLE001
+                pass
+
+    return env.run(main())
+
+
+def _via_mqtt(version: str, line: str, ctx: str | None, prefix: str = "gw/out", repeat: bool = False):
     """Deliver the line as topic '<in>/f0/f1/f2/f3/f4' + payload through a real MQTTClient and listen. None = not expressible."""
     import asyncio
 
@@ -205,7 +247,17 @@ def _via_mqtt(version: str, line: str, ctx: str | None, prefix: str = "gw/out"):
         gateway, _ = env.make_gateway(version, transport=transport, ctx=ctx)
         await transport.connect()
         try:
-            if not broker.deliver(prefix + "/" + "/".join(parts[:5]), raw, 0):
+            topic = prefix + "/" + "/".join(parts[:5])
+            if repeat and broker.deliver(topic, b"first;message", 0):
+                # an earlier message on the very same topic, read and handled first (the transport must not remember it)
+                first = gateway.listen()
+                try:
+                    await asyncio.wait_for(first.__anext__(), 5.0)
+                except Exception:  # noqa: BLE001
+                    pass
+                finally:
+                    await first.aclose()
+            if not broker.deliver(topic, raw, 0):
                 return None  # no subscription matches (e.g. the command level is not 0-4): the broker sends nothing
             agen = gateway.listen()
             try:
@@ -253,7 +305,7 @@ def _run_case(case: dict) -> Outcome:
 
     schema = env.in_ctx(ctx, build_schema)
     if case.get("mqtt"):
-        got = _via_mqtt(version, line, ctx, case.get("mqtt_prefix") or "gw/out")
+        got = _via_mqtt(version, line, ctx, case.get("mqtt_prefix") or "gw/out", bool(case.get("mqtt_repeat")))
         if got is not None:
             classes += ("via-mqtt",)
             status, value = got
@@ -275,6 +327,19 @@ def _run_case(case: dict) -> Outcome:
                     return fail("mqtt-rejects-wellformed", f"topic levels + payload spelling {line!r} (prefix {case.get('mqtt_prefix')!r}) rejected: {value!r}", classes=classes)
             if verdict == "accept" and status == "dropped":
                 return fail("mqtt-dropped-wellformed", f"topic levels + payload spelling {line!r}: nothing was received", classes=classes)
+    if case.get("stream"):
+        got = _via_stream(version, line, ctx)
+        if got is not None:
+            classes += ("via-stream",)
+            status, value = got
+            if status == "leak":
+                return fail(f"stream-listen-leak:{env.exc_sig(value)}", f"line {line!r} on a byte stream under {version}: {value!r}", classes=classes)
+            if verdict == "reject" and status == "ok":
+                return fail(f"stream-accepted-illformed:{rule.split('@')[0]}", f"{line!r} arriving on a byte stream under {version} was accepted as {env.msg_fields(value)}", classes=classes)
+            if verdict == "accept" and status == "ok" and None not in ref["values"]:
+                fields = env.msg_fields(value)
+                if fields[:5] != ref["values"] or not payload_matches(ref["rest"], fields[5]):
+                    return fail("stream-misdecoded", f"{line!r} arriving on a byte stream decoded as {fields}", classes=classes)
     for warm in case.get("warmup", ()):
         # the codec must be stateless: what a long-lived schema decoded before may not matter
         try:
